@@ -325,8 +325,8 @@ impl<C: Cfg> World<C> {
 
     /// get/at/get_mut/at_mut, erased and typed, at index `idx` (may be out of range).
     pub fn do_get(&mut self, v: usize, idx: usize, view: u32, tr: &mut String) {
-        const NAMES: [&str; 8] = ["get", "at", "get_mut", "at_mut", "typed.get", "typed.at", "typed.get_mut", "typed.at_mut"];
-        let name = NAMES[view as usize % 8];
+        const NAMES: [&str; 12] = ["get", "at", "get_mut", "at_mut", "typed.get", "typed.at", "typed.get_mut", "typed.at_mut", "iter.nth", "iter_mut.nth", "iter.skip.next", "iter.nth_back"];
+        let name = NAMES[view as usize % 12];
         let _ = write!(tr, "{}(v{}, {})", name, v, idx);
         let len = self.model[v].len();
         let oob = idx >= len;
@@ -336,7 +336,7 @@ impl<C: Cfg> World<C> {
         // observation: (payload via downcast_ref, typeid ok, size ok, bytes decode payload, ptr offset)
         type Obs = Option<(Option<u32>, bool, bool, Option<u32>, usize)>;
         let base = vec.as_bytes().as_ptr() as usize;
-        let r: Result<Obs, Panicked> = call(|| match view % 8 {
+        let r: Result<Obs, Panicked> = call(|| match view % 12 {
             0 => vec.get(idx).map(|e| (e.downcast_ref::<C::T>().and_then(|x| x.payload()), e.value_typeid() == tid, any_vec::any_value::AnyValueTypeless::size(&*e) == size, C::T::see(any_vec::any_value::AnyValueTypeless::as_bytes(&*e)).payload, any_vec::any_value::AnyValueSizeless::as_bytes_ptr(&*e) as usize)),
             1 => {
                 let e = vec.at(idx);
@@ -357,12 +357,24 @@ impl<C: Cfg> World<C> {
                 Some((x.payload(), true, true, x.payload(), x as *const C::T as usize))
             }
             6 => vec.downcast_mut::<C::T>().unwrap().get_mut(idx).map(|x| (x.payload(), true, true, x.payload(), x as *const C::T as usize)),
-            _ => {
+            7 => {
                 let x = vec.downcast_mut::<C::T>().unwrap().at_mut(idx);
                 Some((x.payload(), true, true, x.payload(), x as *const C::T as usize))
             }
+            // the i-th iterator item
+            8 => vec.iter().nth(idx).map(|e| (e.downcast_ref::<C::T>().and_then(|x| x.payload()), e.value_typeid() == tid, any_vec::any_value::AnyValueTypeless::size(&*e) == size, C::T::see(any_vec::any_value::AnyValueTypeless::as_bytes(&*e)).payload, any_vec::any_value::AnyValueSizeless::as_bytes_ptr(&*e) as usize)),
+            9 => vec.iter_mut().nth(idx).map(|mut e| {
+                let p = e.downcast_mut::<C::T>().and_then(|x| x.payload());
+                (p, e.value_typeid() == tid, any_vec::any_value::AnyValueTypeless::size(&*e) == size, C::T::see(any_vec::any_value::AnyValueTypeless::as_bytes(&*e)).payload, any_vec::any_value::AnyValueSizeless::as_bytes_ptr(&*e) as usize)
+            }),
+            10 => vec.iter().skip(idx).next().map(|e| (e.downcast_ref::<C::T>().and_then(|x| x.payload()), e.value_typeid() == tid, any_vec::any_value::AnyValueTypeless::size(&*e) == size, C::T::see(any_vec::any_value::AnyValueTypeless::as_bytes(&*e)).payload, any_vec::any_value::AnyValueSizeless::as_bytes_ptr(&*e) as usize)),
+            _ => {
+                // counted from the back: element idx is nth_back(len-1-idx); beyond the end: nth_back(len + (idx-len))
+                let k = if idx < len { len - 1 - idx } else { idx };
+                vec.iter().nth_back(k).map(|e| (e.downcast_ref::<C::T>().and_then(|x| x.payload()), e.value_typeid() == tid, any_vec::any_value::AnyValueTypeless::size(&*e) == size, C::T::see(any_vec::any_value::AnyValueTypeless::as_bytes(&*e)).payload, any_vec::any_value::AnyValueSizeless::as_bytes_ptr(&*e) as usize))
+            }
         });
-        let is_at = view % 2 == 1;
+        let is_at = view % 12 < 8 && view % 2 == 1;
         if oob {
             self.nontrivial = true;
             self.class("out-of-range");
